@@ -169,6 +169,38 @@ Theorem C09_redirect_chain_bounded : forall ver orig script r,
 Proof. exact chain_length. Qed.
 Print Assumptions C09_redirect_chain_bounded.
 
+(* "at most max_redirects redirects are followed", whatever the SOURCE of the limit: set on the
+   request, or the client's defaults (AsyncHTTPClient(defaults=dict(max_redirects=N))), or the
+   built-in default 5 -- for every script of answers, redirect loops included *)
+Theorem C09_fetch_redirects_bounded_any_source : forall rc r,
+  initial_req rc = Some r ->
+  (List.length (fst (chain (rc_ver rc) (rc_url rc) r (rc_script rc))) <=
+   S (Z.to_nat (match rc_maxred rc with
+                | Some z => z
+                | None => match rc_defmax rc with Some d => d | None => 5%Z end
+                end)))%nat.
+Proof. exact fetch_chain_bounded. Qed.
+Print Assumptions C09_fetch_redirects_bounded_any_source.
+
+(* the limit run()/finish() see through the _RequestProxy, and every follow-up gets it minus one
+   as an EXPLICIT value (so the defaults are consulted once, not once per hop) *)
+Theorem C09_maxred_sources : forall r,
+  maxred_of r = match r_maxred r with
+                | Some z => z
+                | None => match r_defmax r with Some d => d | None => 5%Z end
+                end.
+Proof. reflexivity. Qed.
+Print Assumptions C09_maxred_sources.
+
+Theorem C09_followup_limit_is_explicit : forall orig r h code joined r',
+  redirect_request orig r h code joined = FRedirect r' ->
+  r_maxred r' = Some (maxred_of r - 1)%Z.
+Proof.
+  intros orig r h code joined r' H. apply redirect_inv in H.
+  destruct H as [h1 [h2 [h3 [h4 [uo [un F]]]]]]. exact (rf_maxred _ _ _ _ _ _ _ _ _ _ _ _ F).
+Qed.
+Print Assumptions C09_followup_limit_is_explicit.
+
 (* 303 to a non-HEAD request, 301/302 to a POST: a GET without body and without
    Content-Length / Content-Type / Content-Encoding / Transfer-Encoding, also on the wire *)
 Theorem C09_redirect_to_get : forall orig r h code joined r',
